@@ -320,6 +320,14 @@ pub struct GenReader {
     pub consumed: Rc<std::cell::Cell<u64>>,
 }
 
+/// `max_read` value that makes a reader return a different, position-dependent size on every call
+/// (128 ..= 65536 bytes, thousands of distinct sizes over a long stream)
+pub const VARIED_READS: usize = usize::MAX - 1;
+
+pub fn varied_size(pos: u64) -> usize {
+    128 + ((pos / 7).wrapping_mul(2_654_435_761) % 65_409) as usize
+}
+
 impl GenReader {
     pub fn byte_at(i: u64) -> u8 {
         (i.wrapping_mul(0x9E37_79B9_7F4A_7C15) >> 56) as u8 ^ (i as u8)
@@ -328,7 +336,8 @@ impl GenReader {
 
 impl Read for GenReader {
     fn read(&mut self, buf: &mut [u8]) -> io::Result<usize> {
-        let n = (buf.len() as u64).min(self.len - self.pos).min(self.max_read as u64) as usize;
+        let cap = if self.max_read == VARIED_READS { varied_size(self.pos) } else { self.max_read };
+        let n = (buf.len() as u64).min(self.len - self.pos).min(cap as u64) as usize;
         // fill quickly: pattern repeats per 8 bytes from position
         for (i, b) in buf[..n].iter_mut().enumerate() {
             *b = GenReader::byte_at(self.pos + i as u64);
